@@ -172,6 +172,31 @@ func ruleClientReport(c *Ctx, a *udpAnchors) {
 			})
 			c.CheckAt("CLIENT", key+":association-variable-from-Get-or-Add", st, g, "the association variable receives something other than the result of the table lookup or of Add")
 		}
+		// ... and as soon as an association is known it is recorded in that variable, on every way out: a datagram that then
+		// fails (wrong key, rejected destination) is still a datagram on a live association and must be reported
+		for i, src := range append(append([]*ssa.Call{}, a.gets...), a.adds...) {
+			src := src
+			isRec := func(ins ssa.Instruction) bool {
+				st, ok := ins.(*ssa.Store)
+				if !ok || eng.CellRoot(st.Addr) != assocCell {
+					return false
+				}
+				return p.AnyFrom(st.Val, deepF, func(v ssa.Value) bool { return eng.ResultOf(v, src, 0) })
+			}
+			_, nonNil := p.NilEdges(src.Parent(), func(v ssa.Value) bool { return v == ssa.Value(src) || eng.ResultOf(v, src, 0) })
+			okRec := true
+			var bad ssa.Instruction
+			if len(nonNil) > 0 {
+				for _, e := range sortedEdges(nonNil) {
+					if ok, b := a.R.MustPassUp(edgePoint(e), isRec); !ok {
+						okRec, bad = false, b
+					}
+				}
+			} else {
+				okRec, bad = a.R.MustPassUp(eng.After(src), isRec)
+			}
+			c.CheckAt("CLIENT", fmt.Sprintf("%s:association#%d-recorded-on-every-path", key, i), src, okRec, fmt.Sprintf("an association was found/created here but a path leaves (%s) without recording it in the variable the report tests: datagrams that fail on a live association are not reported", p.IPos(bad)))
+		}
 	}
 	// status
 	okS, badS := statusOK(c, eng.Arg(&r.Call, 0))
